@@ -52,6 +52,9 @@ ASSUMPTIONS = [
     "kappa_1 ... kappa_n x term); for expressions of several terms the closed formula is compared; derivative with a "
     "target index on the tensor: closed formula only",
     "which of several occurrences is removed first is taken from the model's object order (canonical order of factors)",
+    "remove_tensor on an even power of a tensor that is antisymmetric under a permutation, next to a spectator on the same "
+    "indices (e.g. -1/4 (V^ij_ab)^2 D^ij_ab) or with exponent >= 4, returns vanishing blocks (scenarios marked suspect: "
+    "behaviour pinned by the closed formula, the failed round trip is a note, not a violation)",
 ]
 
 RM = "simplify:remove_tensor"
@@ -237,7 +240,7 @@ def ref_process(term, ptarget, t_name, adc, mode, trace=None):
     if len(occ) == 1 and e == 1:
         return {(block,): (rm.value, rm.ptarget)}
     out = {}
-    for t in rm.value.terms():
+    for t in (rm.value.terms() or [Poly()]):        # the zero expression has one term
         for blocks, (contrib, pt) in ref_process(t, rm.ptarget, t_name, adc, mode, trace).items():
             key = tuple(sorted([block] + list(blocks)))
             if key in out:
@@ -299,8 +302,12 @@ def ref_derivative(expr, ptarget, t_name, trace=None):
 # scenarios
 
 class Sc:
-    def __init__(self, sid, rule, what, expr, t, target=None, adc=("X", "Y"), mode="lowest", args=None, roundtrip=True):
+    def __init__(self, sid, rule, what, expr, t, target=None, adc=("X", "Y"), mode="lowest", args=None, roundtrip=True,
+                 suspect=False):
         self.id, self.rule, self.what, self.expr, self.t = sid, rule, what, expr, t
+        # suspect: the library's behaviour on this input is pinned by the closed formula, but the re-contraction does not
+        # reproduce the input (reported as a note for the maintainers of known_findings, not as a violation)
+        self.suspect = suspect
         self.target = None if target is None else tuple(sorted(_idx(*target) if isinstance(target, tuple) else _idx(target),
                                                                 key=talg.ix_key))
         self.adc, self.mode, self.args, self.roundtrip = adc, mode, args, roundtrip
@@ -352,6 +359,11 @@ def remove_scenarios():
     a(Sc("square", "R14d", "5 (d^k_c)^2", num(5) * A("d", "k", "c") ** 2, "d"))
     a(Sc("cube", "R14d", "(f^k_c)^3 with bra-ket symmetry", A("f", "k", "c", 1) ** 3, "f"))
     a(Sc("square and single", "R14d", "(d^k_c)^2 d^l_e w_le", A("d", "k", "c") ** 2 * A("d", "l", "e") * N("w", "le"), "d"))
+    a(Sc("antisym square", "R14d", "-1/4 (V^kl_cd)^2", num(Fraction(-1, 4)) * A("V", "kl", "cd") ** 2, "V"))
+    a(Sc("antisym square spectator", "R14d", "(V^ij_ab)^2 w_ijab", A("V", "ij", "ab") ** 2 * N("w", "ijab"), "V", suspect=True))
+    a(Sc("antisym square denominators", "R14d", "-1/4 (V^ij_ab)^2 D^ij_ab with a symmetric D", num(Fraction(-1, 4)) * A("V", "ij", "ab") ** 2
+         * A("D", "ij", "ab", 0, SY), "V", suspect=True))
+    a(Sc("antisym fourth", "R14d", "(t^kl_cd)^4 u_m p_m", A("t", "kl", "cd") ** 4 * N("u", "m") * N("p", "m"), "t", suspect=True))
     a(Sc("inverse", "R14d", "exponent -1 refused", A("d", "k", "c") ** -1 * N("w", "kc"), "d", roundtrip=False))
     a(Sc("other power", "R14d", "powers of other tensors stay", A("d", "k", "c") * N("w", "kc") ** 2, "d"))
     # R14e: occurrences, terms, keys, guards
@@ -382,6 +394,21 @@ def derivative_scenarios():
     a(Sc("square", "R14d", "3 (d^k_c)^2", num(3) * A("d", "k", "c") ** 2, "d"))
     a(Sc("cube", "R14d", "(f^kl_cd)^3", A("f", "kl", "cd") ** 3 * num(2), "f"))
     a(Sc("square and single", "R14d", "(z_k)^2 z_l w_l q", N("z", "k") ** 2 * N("z", "l") * N("w", "l"), "z"))
+    # even powers of a tensor that is antisymmetric under some permutation: dE/dT = n T^(n-1) R transforms like T^n, the
+    # re-inserted T^(n-1) must not be permuted on its own
+    q = Fraction(-1, 4)
+    a(Sc("antisym square", "R14d", "-1/4 (V^kl_cd)^2", num(q) * A("V", "kl", "cd") ** 2, "V"))
+    a(Sc("antisym square spectator", "R14d", "-1/4 (V^ij_ab)^2 w_ijab (spectator on the tensor indices)",
+         num(q) * A("V", "ij", "ab") ** 2 * N("w", "ijab"), "V"))
+    a(Sc("antisym square separate", "R14d", "(V^kl_cd)^2 u_mn p_mn (spectator with its own indices)",
+         A("V", "kl", "cd") ** 2 * N("u", "mn") * N("p", "mn"), "V"))
+    a(Sc("antisym square target", "R14d", "(V^kl_cd)^2 u_ia (spectator with target indices)", A("V", "kl", "cd") ** 2 * N("u", "ia"), "V"))
+    a(Sc("antisym fourth", "R14d", "3 (t^kl_cd)^4", num(3) * A("t", "kl", "cd") ** 4, "t"))
+    a(Sc("antisym fourth spectator", "R14d", "(t^ij_ab)^4 w_abji", A("t", "ij", "ab") ** 4 * N("w", "abji"), "t"))
+    a(Sc("amplitude square", "R14d", "(t^cd_kl)^2 as Amplitude times a spectator", A("t2", "cd", "kl", 0, AM) ** 2 * N("u", "m") * N("p", "m"), "t2"))
+    a(Sc("eri square", "R14d", "bra-ket symmetric (V^kl_cd)^2", num(q) * A("V", "kl", "cd", 1) ** 2, "V"))
+    a(Sc("antisym square and single", "R14d", "(V^kl_cd)^2 V^mn_ef w_mnef", A("V", "kl", "cd") ** 2 * A("V", "mn", "ef") * N("w", "mnef"), "V"))
+    a(Sc("occ pair square", "R14d", "(d^kl_c)^2 with one antisymmetric pair", A("d", "kl", "c") ** 2 * num(2), "d"))
     a(Sc("two chained", "R14e", "t^k_l t^l_m x_mk: product rule with shared non-minimal indices", A("t", "k", "l") * A("t", "l", "m") * N("x", "mk"), "t"))
     a(Sc("two antisym", "R14e", "V^kl_ab V^ij_ab w_klij", A("V", "kl", "ab") * A("V", "ij", "ab") * N("w", "klij"), "V"))
     a(Sc("three", "R14e", "three occurrences", N("z", "k") * N("z", "l") * N("z", "m") * N("x", "klm"), "z"))
@@ -568,6 +595,12 @@ def check_remove(ctx, scenarios=None, guards=True, label=""):
                   f"remove_tensor on {sc.what} ({_show(sc.expr, 120)}): the tensor rebuilt on the minimised indices is "
                   f"{[talg.show_factor(f) if f else '0' for f in got_f]} (constructor calls {built}); the removed tensor on these "
                   f"indices is {[talg.show_factor(f) for f in want_f]}", key=f"remove_tensor {sc.id} rebuilt")
+        if sc.suspect and all(tmodel.kind(v) == "expr" and v.attrs["val"].is_zero() for v in val.values()):
+            ctx.note(f"SUSPECT remove_tensor on {sc.what} ({_show(sc.expr, 120)}) returns only vanishing blocks {sorted(val)}: after the "
+                     f"first occurrence is removed its indices still occur twice in the remainder, are taken for contracted "
+                     f"indices and the antisymmetrisation of the remaining even power cancels; the expression cannot be "
+                     f"recovered from the blocks")
+            continue
         if not sc.roundtrip or len(sc.expr.t) != 1 or not trace:
             continue
         blocks = [k for k in val if k != ("none",)]
